@@ -105,6 +105,9 @@ type c08Decoders struct {
 	V2  ipmi.V2Session
 	Msg ipmi.Message
 	R1  ipmi.RAKPMessage1
+	// one confidentiality layer per direction for the whole batch, as a session has
+	AESKey     [16]byte
+	AESX, AESY *ipmi.AES128CBC
 }
 
 func keyedHash(r *rand.Rand) (func() hash.Hash, string) {
@@ -352,6 +355,14 @@ func c08Round(run *ev.Run, o c08One, buf gopacket.SerializeBuffer, rdec *c08Deco
 			viol("new", err.Error(), nil)
 			return
 		}
+		if rdec != nil {
+			if rdec.AESX == nil {
+				rdec.AESKey = key
+				rdec.AESX = x
+				rdec.AESY, _ = ipmi.NewAES128CBC(key)
+			}
+			key, x = rdec.AESKey, rdec.AESX
+		}
 		b1, ok := ser(x, inner)
 		if !ok {
 			return
@@ -389,6 +400,9 @@ func c08Round(run *ev.Run, o c08One, buf gopacket.SerializeBuffer, rdec *c08Deco
 			return
 		}
 		y, _ := ipmi.NewAES128CBC(key)
+		if rdec != nil {
+			y = rdec.AESY
+		}
 		if !dec(y, b1) {
 			return
 		}
